@@ -252,6 +252,18 @@ func (p *Program) resolve(v ssa.Value) ssa.Value {
 				sc = o
 			}
 			rets := returnsOf(sc)
+			if n := sc.Signature.Results().Len(); len(rets) > 1 && x.Index < n-1 && isErrorType(sc.Signature.Results().At(n-1).Type()) {
+				// (value, …, error) helper: a non-error result is meaningful only on the success return
+				var succ []*ssa.Return
+				for _, ret := range rets {
+					if len(ret.Results) == n && isNilConst(p.resolve(p.res(ret, n-1))) {
+						succ = append(succ, ret)
+					}
+				}
+				if len(succ) == 1 {
+					rets = succ
+				}
+			}
 			if len(rets) != 1 || x.Index >= len(rets[0].Results) {
 				return v
 			}
